@@ -5,6 +5,7 @@ CONSTANTS
   MaxLoads = 3
   TTL = 1
   GenCheck = TRUE
+  Locked = TRUE
   Export = FALSE
 VIEW View
 INVARIANTS TypeOK NoStale OneFlight Answered
